@@ -46,34 +46,7 @@ def _quoting_ok(elt, var):
     return False, 'the word is embedded as %s' % t[:80]
 
 
-def _eval_count(text, name, k):
-    """truth value of a condition over the list `name` when it holds k elements; None when the condition is about anything else"""
-    import operator
-    ops = {ast.Eq: operator.eq, ast.NotEq: operator.ne, ast.Lt: operator.lt, ast.LtE: operator.le, ast.Gt: operator.gt, ast.GtE: operator.ge}
-    try:
-        e = ast.parse(text, mode='eval').body
-    except SyntaxError:
-        return None
-
-    def ev(x):
-        if isinstance(x, ast.Constant) and isinstance(x.value, (int, bool)):
-            return x.value
-        if isinstance(x, ast.Call) and norm(x) == 'len(%s)' % name:
-            return k
-        if isinstance(x, ast.Name) and x.id == name:
-            return k > 0
-        if isinstance(x, ast.UnaryOp) and isinstance(x.op, ast.Not):
-            return not ev(x.operand)
-        if isinstance(x, ast.Compare) and len(x.ops) == 1 and type(x.ops[0]) in ops:
-            return ops[type(x.ops[0])](ev(x.left), ev(x.comparators[0]))
-        if isinstance(x, ast.BoolOp):
-            vs = [ev(v) for v in x.values]
-            return all(vs) if isinstance(x.op, ast.And) else any(vs)
-        raise ValueError(norm(x))
-    try:
-        return bool(ev(e))
-    except ValueError:
-        return None
+from .common import eval_count as _eval_count
 
 
 def check_split(ctx, rule):
